@@ -55,6 +55,11 @@ CLAIMED = {
         "plans_preserved: op-code, counts word, bundles and slot sections of old methods are unchanged; expandTy_extends: adding declarations of fresh names anywhere leaves every expanded type unchanged. "
         "Tie: random append-only histories of 3-5 revisions; op/err/method facts of the real pipeline and the generated C stub, C skeleton and Rust stub fragments of every pre-existing method are compared across revisions, and the facts with the model.",
    note=TB + " Interoperation of old stubs with new skeletons at run time follows from identical fragments + C01; it is not executed here."),
+ "C16": dict(engine="lean+cli debug/release", technique="Lean 4 proof for the decision logic (array bounds, counter ranges, wrap = checked when values fit) + differential debug/release execution on generated, mutated and boundary inputs",
+   text="Partial by construction. Lean 4: accepted array bounds lie in 1..=65535 (one decoder for both profiles), the u8 argument counters of an accepted method stay below 256 (interface verifier bounds each class by 15), wrapping and checked arithmetic agree when values fit; a concrete struct whose expanded size exceeds 2^64 is exhibited (known finding: debug panics, release wraps). "
+        "Not expressible in the model and explored instead: memory faults, stack depth, wall-clock. Valid generated programs (6 backends), byte-level mutants and a fixed list of special inputs (empty, invalid UTF-8, NUL, 200k-char identifiers, 4000 structs, bounds 0/65536/10^20, nesting depth 32, diamond depth 12, 5000 parameters) run on the debug AND release binaries built from the working tree under stack/address-space/time limits; exit status, signals, stderr and output bytes compared. "
+        "Two genuine defects found this way were repaired in /repo (array bounds outside 1..=65535 hit unwrap_unchecked in release; unbounded u8 counters).",
+   note=TB + " Termination of the model's fuelled recursions on accepted inputs is not proved; undefined behaviour cannot be observed reliably, only its symptoms (divergent exit status or bytes)."),
  "C17": dict(engine="lean+tables+cli+compiled probes", technique="Lean 4 proof (literal semantics per language) + kernel-checked regenerated table of the real range check + compiled value/type probes",
    text="Lean 4: the model of Primitive::new agrees with the real range check on the whole regenerated boundary table (297 rows: each type x {min-1,min,min+1,-1,0,1,max-1,max,max+1} x {decimal, hex, negative hex, leading zeros, fractional}, floats around the overflow thresholds) and equals the mathematical in-range predicate there; "
         "every backend reading the verbatim literal evaluates it to its mathematical value when it has no leading zero (Rust: always); refuted for leading zeros (octal in C/C++/Java). "
